@@ -289,7 +289,7 @@ def jobs(tier):
     add(2, None, 2, 2, [['A', 'B', 'C'], ['A']], caches=(True,), split=16, no_get=True, lazy=False)
     if not q:
         add(2, None, 2, 3, [['B', 'C'], ['A', 'B', 'C']], split=16)
-        add(2, None, 2, 2, [[], ['A']], split=16)        # until=3 does not finish within the budget with asynchronous agents
+        add(2, None, 2, 2, [[], ['A']], split=16, no_get=True)        # until=3 / get_data requests do not finish within the budget with asynchronous agents
     # event-based agent without own steps, triggered by a clock simulator that may lag behind A
     add(1, None, 2, 3, [[], ['A'], ['A', 'B']], caches=(True,), lazy=False, triggered=True, no_get=True, split=16)
     add(1, None, 2, 3, [[], ['A', 'B', 'T']], caches=(True,), lazy=True, triggered=True, no_get=True, split=16)
@@ -310,7 +310,7 @@ def jobs(tier):
     add(1, None, 2, 3, [['A', 'B']], caches=(True,), remote=['B'], concurrent=True, no_get=True)
     add(1, None, 2, 3, [[]], caches=(True,), concurrent=True, no_get=True)
     if not q:
-        add(1, None, 3, 3, [['A', 'B']], remote=['A', 'B'], concurrent=True)
+        add(1, None, 2, 3, [['A', 'B']], remote=['A', 'B'], concurrent=True)
         add(1, None, 2, 3, [['A'], ['B']], concurrent=True, lazy=False)
         add(1, None, 3, 3, [['A', 'B']], remote=['B'])
         add(1, None, 3, 3, [['A', 'B']], remote=['A', 'B'], lazy=False)
